@@ -303,6 +303,56 @@ def run(case):
                 vio.append({'mech': 'lookup-order', 'what': f'names {names} exist next to the including file and in the working directory ({case["decoy_mode"]}); expected the including file\'s directory to win: got {util.short(got[1:], 300)}, want {util.short(_plain(base[2]), 300)}; opened={[os.path.relpath(o, root) for o in _opened]}; {what}'})
             else:
                 feats.append('lookup_order_ok')
+        # ---------------- odd but legal layouts: a file without any document in the sequence, a name whose directory part exists
+        #                  next to the including file as a *regular file* (look-up must fall through to the working directory),
+        #                  a source given as ~/...
+        if base[0] == 'ok':
+            pos = int(random.Random(util.sig(case)).random() * (n_seq + 1))
+            empty = os.path.join(mdir, 'empty.yaml')
+            write(empty, '# nothing in here\n')
+            with_empty = paths[:pos] + [empty] + paths[pos:]
+            compare('sources_with_empty_file', lambda: Config.build(*with_empty))
+            m8 = os.path.join(mdir, 'master8.yaml')
+            write(m8, ''.join(f'---\n!include {rel(mdir, p)}\n' for p in with_empty))
+            compare('n_includes_with_empty_file', lambda: Config.build(m8))
+            m9 = os.path.join(mdir, 'master9.yaml')
+            write(m9, '!include [' + ', '.join(rel(mdir, p) for p in with_empty) + ']\n')
+            compare('include_list_with_empty_file', lambda: Config.build(m9))
+            m10 = os.path.join(mdir, 'master10.yaml')
+            write(m10, 'kept: 1\nek: !include empty.yaml\n')
+            o = observe(lambda: Config.build(m10))
+            feats.append('variant_key_include_of_empty_file')
+            if o[0] != 'ok' or o[1] != util.typed({'kept': 1, 'ek': {}}):
+                vio.append({'mech': 'empty-file-under-key', 'what': f"'ek: !include empty.yaml' (a file without documents) next to 'kept: 1' -> {util.short(o[1:], 300)}, expected {{'kept': 1, 'ek': {{}}}}"})
+            # a regular file in the way
+            nd = os.path.join(root, 'tree', 'nd')
+            os.makedirs(nd, exist_ok=True)
+            write(os.path.join(nd, 'conf'), 'i am a regular file\n')
+            write(os.path.join(cwd, 'conf', 'x.yaml'), utexts[0])
+            m11 = os.path.join(nd, 'master11.yaml')
+            write(m11, '!include conf/x.yaml\n')
+            o = observe(lambda: Config.build(m11))
+            feats.append('variant_regular_file_in_the_way')
+            ref0 = observe(lambda: Config.build(os.path.join(cwd, 'conf', 'x.yaml')))
+            if ref0[0] == 'ok' and (o[0] != 'ok' or o[1] != ref0[1]):
+                vio.append({'mech': 'lookup-stops-at-regular-file', 'what': f"'!include conf/x.yaml' from a folder where 'conf' is a regular file, conf/x.yaml exists in the working directory: {util.short(o[1:], 300)}; expected the working directory to serve it: {util.short(ref0[1], 200)}"})
+            shutil.rmtree(os.path.join(cwd, 'conf'), ignore_errors=True)
+            # ~/ names
+            home0 = os.environ.get('HOME')
+            os.environ['HOME'] = root
+            try:
+                names = ['~/' + os.path.relpath(p, root) for p in paths]
+                got = observe(lambda: Config.build(*names))
+                feats.append('variant_home_relative_sources')
+                if got[0] != 'ok' or got[1] != base[1]:
+                    vio.append({'mech': 'variant-differs:home_relative_sources', 'what': f'sources given as {names} (HOME={root}) -> {util.short(got[1:], 300)}; by absolute names -> {util.short(_plain(base[2]), 300)}; {what}'})
+                else:
+                    check_probes(got[2], 'home_relative_sources', paths[case['probe_doc']])
+            finally:
+                if home0 is None:
+                    os.environ.pop('HOME', None)
+                else:
+                    os.environ['HOME'] = home0
         # ---------------- fault enumeration: every subset of missing files (no decoys left in the working directory)
         for nm in os.listdir(cwd):
             os.remove(os.path.join(cwd, nm))
